@@ -85,6 +85,11 @@ type Sim struct {
 	rng                *hx.Rng
 	Shuffle            bool
 	Steps              int
+	// per-receiver gossip order (scenario "overtake"): every receiver has its own inbox and its own priority among the
+	// senders of single commits; decided aggregates overtake single commits; per-sender order is preserved
+	PerReceiver bool
+	inbox       map[spectypes.OperatorID][]*Emission
+	prio        map[spectypes.OperatorID]map[spectypes.OperatorID]int // receiver -> sender -> rank (lower = earlier)
 }
 
 // consensusStart: when the runner of this role starts the QBFT instance, relative to the slot start
@@ -156,7 +161,57 @@ func (s *Sim) capture(from spectypes.OperatorID, m *spectypes.SSVMessage) {
 	s.now += time.Millisecond
 	e := &Emission{From: from, Msg: m, At: s.now, Round: uint64(sm.Message.Round), Type: uint64(sm.Message.MsgType), NSig: len(sm.Signers)}
 	s.Log = append(s.Log, e)
+	if s.PerReceiver {
+		for _, n := range s.nodes {
+			if !s.Silent[n.id] {
+				s.inbox[n.id] = append(s.inbox[n.id], e)
+			}
+		}
+		return
+	}
 	s.pending = append(s.pending, e)
+}
+
+// nextFor picks the next message receiver `to` gets: among the oldest undelivered message of every sender (per-sender
+// FIFO), a decided aggregate first, then anything that is not a single commit (oldest first), then single commits by the
+// receiver's own sender ranking.
+func (s *Sim) nextFor(to spectypes.OperatorID, pass int) int {
+	in := s.inbox[to]
+	seen := map[spectypes.OperatorID]bool{}
+	best, bestScore := -1, 1<<30
+	for i, e := range in {
+		if seen[e.From] {
+			continue
+		}
+		seen[e.From] = true
+		score := 0
+		switch {
+		case e.Type == uint64(specqbft.CommitMsgType) && e.NSig > 1:
+			score = 0
+		case e.Type != uint64(specqbft.CommitMsgType):
+			score = 1000 + i
+		default:
+			score = 100000 + s.prio[to][e.From]
+		}
+		// pass 0: everything but single commits, at every operator (so all of them reach the commit phase and decided
+		// aggregates travel fast); pass 1: single commits; pass 2: the commits of the sender this receiver hears late
+		if (pass == 0 && score >= 100000) || (pass == 1 && score >= 100900) {
+			continue
+		}
+		if score < bestScore {
+			best, bestScore = i, score
+		}
+	}
+	return best
+}
+
+func (s *Sim) deliver(n *simNode, e *Emission) {
+	sm := &specqbft.SignedMessage{}
+	if err := sm.Decode(e.Msg.Data); err != nil {
+		panic(err)
+	}
+	_, _ = n.ctrl.ProcessMsg(simLog, sm)
+	s.Steps++
 }
 
 func (s *Sim) lost(e *Emission) bool {
@@ -208,6 +263,31 @@ func (s *Sim) Run(values func(op spectypes.OperatorID) []byte, maxRounds uint64)
 		}
 	}
 	for guard := 0; guard < 100000; guard++ {
+		if s.PerReceiver {
+			// the lowest-numbered operator with mail goes first (it decides first; its aggregate then races the others' commits)
+			delivered := false
+			for pass := 0; pass < 3 && !delivered; pass++ {
+				for _, n := range s.nodes {
+					if s.Silent[n.id] || len(s.inbox[n.id]) == 0 {
+						continue
+					}
+					i := s.nextFor(n.id, pass)
+					if i < 0 {
+						continue
+					}
+					e := s.inbox[n.id][i]
+					s.inbox[n.id] = append(s.inbox[n.id][:i:i], s.inbox[n.id][i+1:]...)
+					if !s.lost(e) {
+						s.deliver(n, e)
+					}
+					delivered = true
+					break
+				}
+			}
+			if delivered {
+				continue
+			}
+		}
 		if len(s.pending) > 0 {
 			i := 0
 			if s.Shuffle && s.rng != nil {
@@ -265,6 +345,7 @@ type Scenario struct {
 	MaxRounds uint64
 	Shuffle   bool
 	SameValue bool
+	Overtake  int // > 0: per-receiver gossip order; 1 = directed sender rankings, otherwise rankings drawn from the seed
 }
 
 func valueFor(same bool, role spectypes.BeaconRole, height uint64) func(op spectypes.OperatorID) []byte {
@@ -283,6 +364,31 @@ func RunScenario(w *World, role spectypes.BeaconRole, height uint64, sc Scenario
 	s.DropProposalsBelow, s.DropCommitsBelow, s.Shuffle = sc.DropProp, sc.DropCom, sc.Shuffle
 	for _, o := range sc.Silent {
 		s.Silent[o] = true
+	}
+	if sc.Overtake > 0 {
+		s.PerReceiver = true
+		s.inbox = map[spectypes.OperatorID][]*Emission{}
+		s.prio = map[spectypes.OperatorID]map[spectypes.OperatorID]int{}
+		n := w.N
+		for to := 1; to <= n; to++ {
+			rank := map[spectypes.OperatorID]int{}
+			if sc.Overtake == 1 {
+				// directed: receiver `to` hears the commits of operator to+2 (cyclically) last: operator 1 decides without
+				// operator 3; operator 2 then combines that aggregate with commit(3) before commit(4) arrives
+				for from := 1; from <= n; from++ {
+					rank[spectypes.OperatorID(from)] = from
+				}
+				rank[spectypes.OperatorID((to+1)%n+1)] = 1000
+			} else {
+				for i, from := range r.Perm(n) {
+					rank[spectypes.OperatorID(from+1)] = i
+					if i == n-1 {
+						rank[spectypes.OperatorID(from+1)] = 1000
+					}
+				}
+			}
+			s.prio[spectypes.OperatorID(to)] = rank
+		}
 	}
 	mr := sc.MaxRounds
 	if mr == 0 {
